@@ -1,12 +1,48 @@
-(* C12 (growing) *)
-From GF Require Import Base.Bytes Model.Chunk.
-From Coq Require Import Lia ZifyBool ZifyN.
+(* C12 — aws-chunked streaming uploads decode to the payload however they arrive.
+   Model: Model/Chunk.v — chunkedReader.Read as a state machine (cr_remain, cr_not_first) over an
+   inner reader that delivers, per call, between 1 and the requested number of bytes according to
+   an arbitrary fragmentation schedule (optionally EOF together with the last data), driven by
+   the two consumers the backends use. *)
+From GF Require Import Base.Bytes Model.Chunk Proofs.ChunkProofs.
 Open Scope Z_scope.
-Theorem C12_hexval_digit : forall c v, hexval c = Some v -> 0 <= v < 16.
-Proof.
-  intros c v. unfold hexval.
-  destruct ((48 <=? c)%N && (c <=? 57)%N) eqn:E1; [intros H; inversion H; lia|].
-  destruct ((97 <=? c)%N && (c <=? 102)%N) eqn:E2; [intros H; inversion H; lia|].
-  destruct ((65 <=? c)%N && (c <=? 70)%N) eqn:E3; [intros H; inversion H; lia|]. discriminate.
-Qed.
-Print Assumptions C12_hexval_digit.
+
+(* consumer ReadAll(reader, declared size) — all backends: for EVERY payload, chunking
+   (non-empty chunks of any size), transport fragmentation and EOF style the decoded object is
+   exactly the concatenation of the chunk payloads *)
+Theorem C12_decode_any_schedule : forall sig chunks sched eofw,
+  sig_ok sig -> Forall (fun c => c <> [] /\ blen c < 2 ^ 62) chunks ->
+  decode_readall (mk (encode sig chunks) sched eofw) (blen (concat chunks)) = DOk (concat chunks).
+Proof. exact decode_readall_any_schedule. Qed.
+Print Assumptions C12_decode_any_schedule.
+
+(* consumer copy loop with ANY buffer size >= 1 (1 byte ... larger than any chunk) *)
+Theorem C12_decode_copy_any_buffer : forall sig chunks sched eofw bufsz,
+  sig_ok sig -> Forall (fun c => c <> [] /\ blen c < 2 ^ 62) chunks -> 1 <= bufsz ->
+  decode_copy (mk (encode sig chunks) sched eofw) bufsz = concat chunks.
+Proof. exact decode_copy_any_schedule. Qed.
+Print Assumptions C12_decode_copy_any_buffer.
+
+(* a declared decoded length that differs from the payload length is never accepted *)
+Theorem C12_wrong_length_rejected : forall sig chunks sched eofw declared,
+  sig_ok sig -> Forall (fun c => c <> [] /\ blen c < 2 ^ 62) chunks ->
+  0 <= declared -> declared <> blen (concat chunks) ->
+  forall p, decode_readall (mk (encode sig chunks) sched eofw) declared <> DOk p.
+Proof. exact decode_wrong_length_rejected. Qed.
+Print Assumptions C12_wrong_length_rejected.
+
+(* one Read call, any buffer, any state reached while decoding: delivers exactly the next
+   min(want, remaining) payload bytes (the functional specification of chunkedReader.Read) *)
+Theorem C12_read_spec : forall sig, sig_ok sig -> forall fuel c P want racc,
+  cinv sig c P -> (length (rd_buf (cr_inner c)) < fuel)%nat ->
+  exists c', cread fuel want c racc =
+             (rev_append (firstn (Z.to_nat want) P) racc, (if blen P <? want then REOF else RNone), c') /\
+             (want <= blen P -> cinv sig c' (skipn (Z.to_nat want) P)).
+Proof. exact cread_spec. Qed.
+Print Assumptions C12_read_spec.
+
+(* non-vacuity / regression witness for the short-read defect: 5-byte chunk, 2-byte consumer
+   buffer, 1-byte transport reads *)
+Example C12_ex :
+  decode_copy (mk (encode (repeat 120%N 80) [[1;2;3;4;5]%N; [6]%N]) [1;1;1;1;1;1;1;1;1;1;1;1;1;1;1;1;1;1;1;1] false) 2
+  = [1;2;3;4;5;6]%N.
+Proof. vm_compute. reflexivity. Qed.
